@@ -11,11 +11,11 @@ use serde_json::{json, Value};
 pub struct C15;
 
 #[derive(Clone, Debug, Serialize, Deserialize)]
-enum RIn { Ipa(Vec<String>), Group(char), Matrix(Vec<(usize, bool)>), Bound, Seq(Vec<RIn>), IpaLen(String, Option<bool>, Option<bool>), IpaStress(String, Option<bool>, Option<bool>) }
+enum RIn { Ipa(Vec<String>), Group(char), Matrix(Vec<(usize, bool)>), Bound, Seq(Vec<RIn>), IpaLen(String, Option<bool>, Option<bool>), IpaStress(String, Option<bool>, Option<bool>), GroupLen(char, Option<bool>, Option<bool>) }
 #[derive(Clone, Debug, Serialize, Deserialize)]
 enum ROut { Repl(String), Plus(String), Empty }
 
-fn rin_text(i: &RIn) -> String { match i { RIn::IpaStress(g, st, se) => { let mut a = vec![]; if let Some(b) = st { a.push(format!("{}stress", if *b { "+" } else { "-" })); } if let Some(b) = se { a.push(format!("{}sec.stress", if *b { "+" } else { "-" })); } format!("{g}:[{}]", a.join(",")) } RIn::IpaLen(g, l, o) => { let mut a = vec![]; if let Some(b) = l { a.push(format!("{}long", if *b { "+" } else { "-" })); } if let Some(b) = o { a.push(format!("{}overlong", if *b { "+" } else { "-" })); } format!("{g}:[{}]", a.join(",")) } RIn::Ipa(v) => v.concat(), RIn::Group(c) => c.to_string(), RIn::Matrix(fs) => format!("[{}]", fs.iter().map(|(f, b)| format!("{}{}", if *b { "+" } else { "-" }, FEATS[*f].0)).collect::<Vec<_>>().join(",")), RIn::Bound => "$".into(), RIn::Seq(xs) => xs.iter().map(rin_text).collect::<Vec<_>>().join(" ") } }
+fn rin_text(i: &RIn) -> String { match i { RIn::GroupLen(c, l, o) => { let mut a = vec![]; if let Some(b) = l { a.push(format!("{}long", if *b { "+" } else { "-" })); } if let Some(b) = o { a.push(format!("{}overlong", if *b { "+" } else { "-" })); } format!("{c}:[{}]", a.join(",")) } RIn::IpaStress(g, st, se) => { let mut a = vec![]; if let Some(b) = st { a.push(format!("{}stress", if *b { "+" } else { "-" })); } if let Some(b) = se { a.push(format!("{}sec.stress", if *b { "+" } else { "-" })); } format!("{g}:[{}]", a.join(",")) } RIn::IpaLen(g, l, o) => { let mut a = vec![]; if let Some(b) = l { a.push(format!("{}long", if *b { "+" } else { "-" })); } if let Some(b) = o { a.push(format!("{}overlong", if *b { "+" } else { "-" })); } format!("{g}:[{}]", a.join(",")) } RIn::Ipa(v) => v.concat(), RIn::Group(c) => c.to_string(), RIn::Matrix(fs) => format!("[{}]", fs.iter().map(|(f, b)| format!("{}{}", if *b { "+" } else { "-" }, FEATS[*f].0)).collect::<Vec<_>>().join(",")), RIn::Bound => "$".into(), RIn::Seq(xs) => xs.iter().map(rin_text).collect::<Vec<_>>().join(" ") } }
 fn rout_text(o: &ROut) -> String { match o { ROut::Repl(s) => s.clone(), ROut::Plus(s) => format!("+{s}"), ROut::Empty => "*".into() } }
 
 /// the harness's rewrite of the default rendering by a romaniser table (first matching transformation per position)
@@ -35,6 +35,12 @@ fn model_render(w: &MWord, table: &[(RIn, ROut)]) -> Option<String> {
                     match inp {
                         RIn::Bound => None,
                         // a length modifier makes the entry stand for the whole long segment: [-long] short, [+long] at least long, [+overlong] overlong, [-overlong] at most long
+                        RIn::GroupLen(c, l, o) => {
+                            if at >= segs.len() || !group_matches(*c, &segs[at]) { return None }
+                            let n = segs[at..].iter().take_while(|x| **x == segs[at]).count();
+                            let ok = l.map(|b| if b { n >= 2 } else { n == 1 }).unwrap_or(true) && o.map(|b| if b { n >= 3 } else { n <= 2 }).unwrap_or(true);
+                            if ok { Some(n) } else { None }
+                        }
                         RIn::IpaLen(g, l, o) => {
                             if at >= segs.len() || t.by_name.get(g) != Some(&segs[at]) { return None }
                             let n = segs[at..].iter().take_while(|x| **x == segs[at]).count();
@@ -72,7 +78,7 @@ fn model_render(w: &MWord, table: &[(RIn, ROut)]) -> Option<String> {
 impl Property for C15 {
     fn id(&self) -> &'static str { "C15" }
     fn rule(&self) -> String {
-        "(rom) a generated word over the plain phone pool (stress, tone, long segments), 0-2 sound changes from the segmental generator, and a romaniser table of 1-4 entries in 1-3 lines: inputs are plain IPA (1-2 segments taken from the word), IPA with a stress modifier (`a:[+stress]`, `a:[+sec.stress]`, …, matched as in the manual's stress table), IPA with a length modifier (`a:[+long]`, `a:[+overlong]`, `a:[-overlong]`, …: the entry stands for the whole long segment), group letters or matrices of 1-2 segmental features, or `$`; outputs fresh strings (Cyrillic capitals / CJK, which no lexer or IPA table uses), `+string` or `*`. \
+        "(rom) a generated word over the plain phone pool (stress, tone, long segments), 0-2 sound changes from the segmental generator, and a romaniser table of 1-4 entries in 1-3 lines: inputs are plain IPA (1-2 segments taken from the word), IPA with a stress modifier (`a:[+stress]`, `a:[+sec.stress]`, …, matched as in the manual's stress table), IPA or a group letter with a length modifier (`a:[+long]`, `V:[+overlong]`, `a:[+overlong]`, `a:[-overlong]`, …: the entry stands for the whole long segment), group letters or matrices of 1-2 segmental features, or `$`; outputs fresh strings (Cyrillic capitals / CJK, which no lexer or IPA table uses), `+string` or `*`. \
          Oracle: run(R, w, from=F) equals the harness's own rewrite of the structural result (first matching entry per position, `+` = default grapheme plus string, `*` = nothing, continuation copies of a long segment print as `ː`, `$` entry replaces every syllable separator and the leading stress mark is dropped), and run(R, w) without aliases equals the default rendering of the same structural word — i.e. the romaniser changed nothing but the print. \
          (derom) a deromaniser table mapping fresh strings (one fresh character, two fresh characters, or a plain letter of the word followed by a fresh character, so that the word may end in a proper prefix of an alias string) to segments of the word (plain, `:[+long]` for a long segment, `:[+stress]` for a segment of a primary-stressed syllable, two-segment sequences): the encoded word (segments replaced by their fresh strings, stress mark dropped where the table supplies it) must parse to the same structural word as the plain text, and run(R, encode(w), into=D) == run(R, w). \
          Non-trivial: an alias entry applied to ≥1 segment and the sound changes changed the word (rom) / an entry was used (derom). Quick 400k, thorough 5M.".into()
@@ -106,7 +112,7 @@ impl Property for C15 {
                                 let longs: Vec<&String> = gw.sylls.iter().flat_map(|sy| sy.segs.iter().filter(|x| x.1 > 1).map(|x| &x.0)).collect();
                                 let a = if !longs.is_empty() && t.chance(3, 4) { longs[t.pick(longs.len())].clone() } else if !segs.is_empty() { segs[t.pick(segs.len())].0.clone() } else { "a".to_string() };
                                 let (l, o) = [(Some(true), None), (None, Some(true)), (None, Some(false)), (Some(false), None), (Some(true), Some(false)), (Some(true), Some(true))][t.pick(6)];
-                                RIn::IpaLen(a, l, o)
+                                if t.chance(1, 3) { RIn::GroupLen(['V', 'C'][t.pick(2)], l, o) } else { RIn::IpaLen(a, l, o) }
                             }
                             0 => { let a = if !segs.is_empty() && t.chance(4, 5) { segs[t.pick(segs.len())].0.clone() } else { pool().common[t.pick(pool().common.len())].text.clone() };
                                    if t.chance(1, 5) { let b = pool().common[t.pick(pool().common.len())].text.clone(); RIn::Ipa(vec![a, b]) } else { RIn::Ipa(vec![a]) } }
@@ -118,7 +124,7 @@ impl Property for C15 {
                             _ => RIn::Bound,
                         };
                         let fresh = FRESH[fi % FRESH.len()].to_string(); fi += 1;
-                        let out = if matches!(inp, RIn::IpaLen(..) | RIn::IpaStress(..)) { if t.chance(4, 5) { ROut::Repl(fresh) } else { ROut::Empty } } else if matches!(inp, RIn::Bound) { if t.chance(2, 3) { ROut::Empty } else { ROut::Repl(fresh) } } else { match t.weighted(&[6, 3, 1]) { 0 => ROut::Repl(fresh), 1 => ROut::Plus(fresh), _ => ROut::Empty } };
+                        let out = if matches!(inp, RIn::IpaLen(..) | RIn::IpaStress(..) | RIn::GroupLen(..)) { if t.chance(4, 5) { ROut::Repl(fresh) } else { ROut::Empty } } else if matches!(inp, RIn::Bound) { if t.chance(2, 3) { ROut::Empty } else { ROut::Repl(fresh) } } else { match t.weighted(&[6, 3, 1]) { 0 => ROut::Repl(fresh), 1 => ROut::Plus(fresh), _ => ROut::Empty } };
                         ins.push(rin_text(&inp)); outs.push(rout_text(&out)); table.push((inp, out));
                     }
                     lines.push(format!("{} > {}", ins.join(", "), outs.join(", ")));
